@@ -43,6 +43,8 @@ namespace Mutagen.Properties.C13
 open Mutagen.Model Mutagen.Model.ScanFS Mutagen.Proofs.ScanFS Mutagen.Proofs.ScanAccel
 open Mutagen.Proofs.ScanReuse Mutagen.Proofs.ScanSim Mutagen.Proofs.ScanAccelMain Mutagen.Proofs.ScanIgnKeys
 open Mutagen.Proofs.ScanPaths (Under)
+open Mutagen.Proofs.ScanCold (andThen ignSt)
+open Mutagen.Proofs.ScanFrame (add)
 
 theorem no_recheck_aux (cfg : Cfg) (out₀ : Out) (dev : Nat) (cs : Children) (E₀ : Entry)
     (hroot : out₀.snapshot.content = some E₀) (hk : E₀.kind = .directory)
@@ -107,6 +109,26 @@ theorem accel_eq_cold_file_root (cfg : Cfg) (content₀ : Bytes) (perm₀ : Nat)
     | _, _ => False :=
   accel_eq_cold_file_core cfg content₀ perm₀ mtime₀ size₀ ino₀ content₁ perm₁ mtime₁ size₁ ino₁ recheck dirty out₀
     hbase hrecheck hdirty (by simpa [Covers] using hcovers)
+
+/-- The loop step for a directory that is reused (scan.go:527-560): when the ignore
+stage lets the child through (`.go`), its baseline entry `B` is usable
+(`reuseDecision`: the child is a directory, the baseline has a directory entry
+for it, its path is not dirty and — on Linux — the baseline directory is not
+empty) and the walk finds every digest-cache entry, the loop records `B` under
+the child's name and adds to the scanner state exactly the child's own
+ignore-cache binding plus what the walk adds (`add`: field-wise sum of scanner
+states, `andThen`: prepend to the rest of the loop); it does not open the directory. -/
+theorem reused_directory_step (cfg : Cfg) (acc : Accel) (pfx : String) (all : Children) (raw : Bytes) (node : Node)
+    (rest : Children) (baseline : Option Entry) (mask : Bool) (contents : Contents)
+    (name decoded cp : String) (isDir : Bool) (ign : (String × Bool) × IgnoreVal) (cm : Bool) (B : Entry)
+    (hpre : preDispatch cfg acc pfx mask raw node = .go name decoded cp isDir ign cm)
+    (hreuse : reuseDecision cfg acc cp (childBaseline baseline isDir name) = some B)
+    (hfound : (reuseWalk acc cp B ({}, false)).2 = false) :
+    scanChildren cfg acc pfx all ((raw, node) :: rest) baseline mask contents {} =
+      andThen (add (ignSt [ign]) (reuseWalk acc cp B ({}, false)).1)
+        (scanChildren cfg acc pfx all rest baseline mask (upsert name B contents) {}) := by
+  rw [Mutagen.Proofs.ScanCold.scanChildren_cons, hpre]
+  simp only [hreuse, hfound, Bool.false_eq_true, if_false]
 
 /-- What the baseline walk (scan.go:527-560, used instead of descending into a
 directory that is not dirty) adds to the new ignore cache: exactly the old
@@ -219,6 +241,17 @@ theorem changes_must_be_reported :
     digestAt (accelAfter (exCfg decAB) fsBefore ["a"] fsDeep) ["b", "a"] = some [1, 9] ∧
     digestAt (scanCold (exCfg decAB) (some fsDeep)) ["b", "a"] = some [2, 8] ∧
     digestAt (accelAfter (exCfg decAB) fsBefore ["b/a"] fsDeep) ["b", "a"] = some [2, 8] := by decide +kernel
+
+/-- `accel_eq_cold` needs the old and the new root on the same device.  The device
+test (scan.go:333) sits in the directory handler, which a reused directory never
+reaches (scan.go:527-533): if the root moves to another device while an unchanged,
+not dirty sub-directory stays on the old one, the accelerated scan keeps the
+sub-directory's old content where the cold scan reports "scan crossed filesystem
+boundary".  (A statement about the model; in the code it was checked by reading,
+the C13 tie does not move roots between devices.) -/
+theorem same_root_device_needed :
+    kindAt (accelAfter (exCfg decAB) fsBefore ["a"] fsMoved) ["b"] = some .directory ∧
+    kindAt (scanCold (exCfg decAB) (some fsMoved)) ["b"] = some .problematic := by decide +kernel
 
 /-- The hypotheses of `accel_eq_cold` hold for `fsBefore` → `fsTouched` with recheck path `a`
 (the file `a` was rewritten and its modification time moved; `b/` is unchanged and not dirty). -/
